@@ -4,3 +4,6 @@ Definition table : list (string * (val -> val)) :=
        VS (header_reprint (as_str (arg 0 v)) (map (fun a => (as_str (arg 0 a), as_opt_str (arg 1 a))) (as_list (arg 1 v)))));
     ("apply_repl", fun v =>       (* [[idx, text]..., nodes] -> nodes *)
        VL (map VS (apply_repl (map (fun a => (Z.to_nat (as_Z (arg 0 a)), as_str (arg 1 a))) (as_list (arg 0 v))) (map as_str (as_list (arg 1 v)))))) ]%string.
+Definition table2 : list (string * (val -> val)) :=
+  [ ("retype_header", fun v =>   (* [value, cur|N, new|N] -> str | N *)
+       vopt VS (retype_header (as_str (arg 0 v)) (as_opt_str (arg 1 v)) (as_opt_str (arg 2 v)))) ]%string.
